@@ -701,8 +701,9 @@ def no_lazily_filled_attributes(ctx, rule, classes):
                 base = x.test.comparators[0].value.id
                 # a cache of values derived from the object itself (other attributes of it are read while filling);
                 # a registry of arguments (`self.results[name] = deepcopy(arg)`) is not one
-                derived = any(isinstance(y, ast.Attribute) and isinstance(y.value, ast.Name) and y.value.id == base and
-                              ast.unparse(y) != d for b in x.body for y in ast.walk(b))
+                derived = any(isinstance(y, ast.Name) and y.id == base and isinstance(y.ctx, ast.Load) and
+                              not (isinstance(parents.get(y), ast.Attribute) and ast.unparse(parents[y]) == d)
+                              for b in x.body for y in ast.walk(b))
                 if derived and any(isinstance(s_, ast.Assign) and any(isinstance(t, ast.Subscript) and ast.unparse(t.value) == d for t in s_.targets)
                                    for b in x.body for s_ in ast.walk(b)):
                     bad.append((fi, x.lineno, d, 'dictionary attribute filled when the key is missing'))
